@@ -32,15 +32,15 @@ Definition inp := (oracles * cli_in)%type.
 
 Definition mkline (x : string * N * string) : lineid := (unhex (fst (fst x)), snd (fst x), unhex (snd x)).
 
-(* c fs glob gz args recursive gunzip batch stdin mode q | observed: lines exit nlog *)
+(* c fs glob gz args recursive gunzip batch stdin stdin-fails mode q | observed: lines exit nlog *)
 Definition c (fsl : list (string * option tree)) (gl : list (string * option (list string)))
              (gz : list (string * option (string * bool)))
-             (args : list string) (recursive z : bool) (batch : N) (stdin : string) (mode q : N)
+             (args : list string) (recursive z : bool) (batch : N) (stdin : string) (stdin_err : bool) (mode q : N)
              (lines : list (string * N * string)) (exit : Z) (nlog : N) : inp * cli_obs :=
   ((mko (map (fun x => (unhex (fst x), snd x)) fsl)
         (map (fun x => (unhex (fst x), option_map (map unhex) (snd x))) gl)
         (map (fun x => (unhex (fst x), option_map (fun y => (unhex (fst y), snd y)) (snd x))) gz),
-    mkin (map unhex args) recursive z (N.to_nat batch) (unhex stdin) (mode, q)),
+    mkin (map unhex args) recursive z (N.to_nat batch) (unhex stdin) stdin_err (mode, q)),
    mkobs (map mkline lines) exit (N.to_nat nlog)).
 
 Definition model (i : inp) : cli_obs :=
